@@ -3,7 +3,8 @@
    PYTHONPATH=/tmp/tc_pinned/src /venv/bin/python tools/capture_golden.py [n [seed [module prefix]]] > corpus/c12_golden.jsonl
 (the corpus is the concatenation of `320 20260929 tcvgold`, `120 20260930 tcvgoldx` — captured after the generator learnt
 name_in_config spellings that sort differently from the parameter names — and `70 20261001 tcvgoldd dotted` — config file names with dots
-in the stem, half of them in name mode; all filtered by tools/filter_golden.py)"""
+in the stem, half of them in name mode — and `60 20261002 tcvgoldp` — after parameter names that are prefixes of one another
+(`lr`, `lr2`) joined the generator; all filtered by tools/filter_golden.py)"""
 import json, logging, os, random, shutil, sys, tempfile, warnings
 from pathlib import Path
 warnings.filterwarnings('ignore'); logging.disable(logging.CRITICAL); os.environ['TQDM_DISABLE'] = '1'
@@ -34,7 +35,7 @@ for i in range(int(sys.argv[1]) if len(sys.argv) > 1 else 320):
     tasks = []
     for d in desc:
         t = chain.tasks[d['name']]
-        ext = {'json': 'json', 'numpy': 'npy', 'pandas': 'pd', 'generated': 'jsonl', 'genempty': 'jsonl'}.get([c for cid, c in spec['classes'].items() if pl.pyname(cid) == d['cls']][0]['kind'])
+        ext = {'json': 'json', 'jsontuple': 'json', 'numpy': 'npy', 'pandas': 'pd', 'generated': 'jsonl', 'genempty': 'jsonl'}.get([c for cid, c in spec['classes'].items() if pl.pyname(cid) == d['cls']][0]['kind'])
         exp = {'key': d['key'], 'data': d['data_path']}
         if d['persist']:
             dobj = t._data_without_value
